@@ -48,16 +48,16 @@ def generate(ctx):
     # (c) two cells sharing one neuron group in one trainer, hyper-parameters overridden per cell and differing in a few places
     MULTI = ["STDP", "TripletSTDP", "MSTDP", "MSTDPET", "KernelSTDP", "DelayAdjustedSTDP", "DelayAdjustedMSTDP"]
     keys = ["lr_a", "lr_b", "tc_a", "tc_b", "lr_a3", "lr_b3", "trace_mode", "tc_elig"]
-    for i in range(260 if th else 14):
+    for i in range(420 if th else 42):
         base = {"lr_a": rng.choice([0.8, -0.8]), "lr_b": rng.choice([0.5, -0.5]), "tc_a": 7.0, "tc_b": 11.0, "lr_a3": 0.3, "lr_b3": 0.2,
                 "trace_mode": rng.choice(["cumulative", "nearest"]), "tc_elig": 15.0}
         other = dict(base)
-        for k in rng.sample(keys, rng.randint(1, 2)):
+        for k in (["trace_mode"] if rng.random() < 0.3 else rng.sample(keys, rng.randint(1, 2))):
             other[k] = {"lr_a": rng.choice([0.4, -0.8, 0.8]), "lr_b": rng.choice([0.25, 0.9, -0.5]), "tc_a": 9.0, "tc_b": 5.0,
                         "lr_a3": -0.6, "lr_b3": 0.7, "trace_mode": "nearest" if base["trace_mode"] == "cumulative" else "cumulative",
                         "tc_elig": 6.0}[k]
         yield {"part": "multicell", "trainer": MULTI[i % len(MULTI)], "dt": rng.choice([1.0, 0.5]), "B": rng.randint(1, 2), "T": rng.randint(6, 10),
-               "hypers": [base, other], "reduction": "sum", "reward": rng.choice(["scalar+", "scalar-", "tensor"]),
+               "hypers": [base, other], "topology": rng.choice(["fan_in", "fan_out"]), "reduction": "sum", "reward": rng.choice(["scalar+", "scalar-", "tensor"]),
                "scale": rng.choice([1.0, 0.25, 2.0]), "p": rng.choice([0.4, 0.7]), "seed": rng.randrange(1 << 30)}
 
 
@@ -150,42 +150,52 @@ def _histories(desc, h_in_shape=None):
 
 def run_multicell(ctx, desc, prop="C08"):
     name = desc["trainer"]
+    topo = desc.get("topology", "fan_in")
     try:
         h = tr.MultiHarness(name, dt=desc["dt"], B=desc["B"], seed=desc["seed"], batch_reduction=RED[desc["reduction"]],
-                            hypers=desc["hypers"], dtype=torch.float64)
+                            hypers=desc["hypers"], dtype=torch.float64, topology=topo)
     except Exception as e:  # noqa: BLE001
         ctx.violation(ctx.exc_signature(e, f"construct.multicell.{name}"), f"{type(e).__name__}: {str(e)[:160]}", desc)
         return False
-    orcs = [tr.Oracle(name, "dense", h.conns[i], h.dt, h.hypers[i], desc["reduction"]) for i in range(2)]
+    # cell i = (connection ci[i], neuron group ni[i])
+    ci, ni = ([0, 1], [0, 0]) if topo == "fan_in" else ([0, 0], [0, 1])
+    orcs = [tr.Oracle(name, "dense", h.conns[ci[i]], h.dt, h.hypers[i], desc["reduction"]) for i in range(2)]
     g = torch.Generator().manual_seed(desc["seed"] + 9)
     B = desc["B"]
     differing = "+".join(sorted(k for k in desc["hypers"][0] if desc["hypers"][0][k] != desc["hypers"][1][k]))
     for t in range(desc["T"]):
         rdesc = {**desc, "T": t + 1}
-        pres = [torch.rand((B, 3), generator=g) < desc["p"] for _ in range(2)]
-        post = torch.rand((B, 2), generator=g) < desc["p"]
+        pres = [torch.rand((B, 3), generator=g) < desc["p"] for _ in range(len(h.conns))]
+        posts = [torch.rand((B, 2), generator=g) < desc["p"] for _ in range(len(h.neurons))]
         reward = None
         if name in tr.THREE_FACTOR:
             reward = (torch.randn(B, generator=g, dtype=torch.float64) if desc["reward"] == "tensor"
                       else (1.0 if desc["reward"] == "scalar+" else -1.0) * (0.2 + float(torch.rand(1, generator=g))))
         delays = [None if c.delayedby is None else c.delay.detach().clone() for c in h.conns]
         try:
-            outs = h.step_apply(pres, post, reward, desc["scale"])
+            outs = h.step_apply(pres, posts, reward, desc["scale"])
         except Exception as e:  # noqa: BLE001
             ctx.violation(ctx.exc_signature(e, f"step.multicell.{name}"), f"{type(e).__name__}: {str(e)[:200]}", rdesc)
             return False
-        ctx.case(f"{prop}/multicell/{name}/differ:{differing}/{desc['reward'] if name in tr.THREE_FACTOR else '-'}/scale{desc['scale']}/B{B}")
+        ctx.case(f"{prop}/multicell-{topo}/{name}/differ:{differing}/{desc['reward'] if name in tr.THREE_FACTOR else '-'}/scale{desc['scale']}/B{B}")
         ctx.count("multicell_steps_checked")
-        for ci, ((pos, neg, dparam), orc) in enumerate(zip(outs, orcs)):
-            epos, eneg = orc.step(pres[ci], post, delays[ci], reward, desc["scale"])
+        exp = [orc.step(pres[ci[i]], posts[ni[i]], delays[ci[i]], reward, desc["scale"]) for i, orc in enumerate(orcs)]
+        if topo == "fan_in":
+            per_conn = [(exp[0], "first"), (exp[1], "second")]
+        else:
+            # both cells write into the one connection's accumulator, which sums the contributions
+            per_conn = [((exp[0][0] + exp[1][0], exp[0][1] + exp[1][1]), "shared")]
+            ctx.count("multicell_shared_connection_steps")
+        for (pos, neg, dparam), ((epos, eneg), which) in zip(outs, per_conn):
             gp, gn = _np(pos), _np(neg)
             if not (np.allclose(gp - gn, epos - eneg, rtol=1e-8, atol=1e-10) and np.allclose(_np(dparam), epos - eneg, rtol=1e-8, atol=1e-10)):
-                ctx.violation(f"{name}.multicell.{'first' if ci == 0 else 'second'}_cell_update_ne_its_own_rule",
-                              f"step {t}: cell {'ab'[ci]} (hyper-parameters differ in {differing}) changed by something other than its own rule",
+                mech = (f"{name}.multicell.{which}_cell_update_ne_its_own_rule" if topo == "fan_in"
+                        else f"{name}.multicell.shared_connection_update_ne_sum_of_cell_rules")
+                ctx.violation(mech, f"step {t}: {which} (hyper-parameters differ in {differing}) changed by something other than the cells' own rules",
                               rdesc, {"max_err": float(np.abs(gp - gn - epos + eneg).max())})
                 return False
             if not (np.allclose(gp, epos, rtol=1e-8, atol=1e-10) and np.allclose(gn, eneg, rtol=1e-8, atol=1e-10)):
-                ctx.violation(f"{name}.multicell.parts_ne_rule", f"step {t}: cell {'ab'[ci]}: LTP/LTD split differs", rdesc)
+                ctx.violation(f"{name}.multicell.parts_ne_rule", f"step {t}: {which}: LTP/LTD split differs", rdesc)
                 return False
     return True
 
